@@ -11,7 +11,9 @@ import (
 // Generator domain exclusions: each corresponds to an open (reported, not yet merged) goja defect; see known-findings.d/C17.json.
 // Flip to false once the fix is in /repo.
 var (
-	// C05's finding: toInt8..toUint32 and ToInteger are wrong for finite |x| >= 2^63 (int64(f) is undefined there).
+	// C05's finding (inbox C05-toint-wrap-2p63.md): toInt8..toUint32 and ToInteger are wrong for finite |x| >= 2^63 (int64(f) is undefined
+	// there). Element values in the band [2^63, 2^85) are kept out of the workload (index-like arguments >= 2^63 are generated: they only clamp); from 2^85 on every
+	// double is a multiple of 2^32, the modular result is 0 and goja agrees.
 	exclHugeNumbers = true
 )
 
@@ -49,8 +51,8 @@ func (g *gen) number() float64 {
 		return float64(r.Range(-3, 70))
 	case 2:
 		f := r.Bits64()
-		if exclHugeNumbers && !math.IsNaN(f) && !math.IsInf(f, 0) && math.Abs(f) >= 9223372036854775808 {
-			return math.Ldexp(f, -int(math.Ilogb(f))+r.Range(0, 60))
+		if a := math.Abs(f); exclHugeNumbers && a >= 9223372036854775808 && a < 38685626227668133590597632 {
+			return math.Ldexp(f, -int(math.Ilogb(f))+r.Range(0, 60)) // move out of the band [2^63, 2^85)
 		}
 		return f
 	default:
@@ -183,11 +185,7 @@ func (g *gen) index(n int, recvBuf int) Arg {
 	case 6:
 		a = Arg{K: core.Pick(r, []string{"null", "b"}), B: true}
 	case 7:
-		if exclHugeNumbers {
-			a = num(float64(r.Range(0, n)))
-		} else {
-			a = num(core.Pick(r, hugeTable))
-		}
+		a = num(core.Pick(r, hugeTable)) // ToIntegerOrInfinity of |x| >= 2^63 (clamping, not the modular conversions of the C05 finding)
 	default:
 		a = num(float64(r.Range(0, n)))
 	}
@@ -611,6 +609,12 @@ func (g *gen) ops() []opGen {
 			}
 			if r.Chance(20, 100) {
 				op.N = r.Range(0, v.Length)
+			} else if r.Chance(40, 100) {
+				op.Fl = "again" // next() once more after exhaustion (after running the effects again)
+				if op.E == nil && r.Bool() {
+					op.At = v.Length + 5 // effects only after exhaustion
+					op.E = g.effects(bufOf(v))
+				}
 			}
 			return op
 		})},
